@@ -25,6 +25,24 @@ def showClose : CloseRes → String
   -- the implementation reports all three failures as errors.SignatureError (they differ only in message text)
   | .ok => "ok" | .readingError => "sigerr" | .notFound => "sigerr" | .mismatch => "sigerr"
 
+/-- the harness's splitmix64 generator (hx.Rand): `n` bytes from state `s`, and the state after -/
+def splitmixNext (s : UInt64) : UInt64 × UInt64 :=
+  let s := s + 0x9e3779b97f4a7c15
+  let z := (s ^^^ (s >>> 30)) * 0xbf58476d1ce4e5b9
+  let z := (z ^^^ (z >>> 27)) * 0x94d049bb133111eb
+  (z ^^^ (z >>> 31), s)
+
+def splitmixBytes (seed : Nat) (n : Nat) : Bytes × Nat :=
+  let rec go (k : Nat) (s : UInt64) (acc : Bytes) : Bytes × UInt64 :=
+    match k with
+    | 0 => (acc, s)
+    | k + 1 =>
+      let r := splitmixNext s
+      go k r.2 (acc ++ u64le r.1)
+  let words := (n + 7) / 8
+  let r := go words (UInt64.ofNat seed) []
+  (r.1.take n, r.2.toNat)
+
 def showNats (l : List Nat) : String := if l.isEmpty then "-" else ",".intercalate (l.map toString)
 
 /-- chunk sizes (partial chunks, then the final definite length) of a partial-length writer fed writes of the given sizes -/
@@ -86,7 +104,8 @@ def handle (line : String) : String :=
         let st : UInt8 := if text == 1 then 1 else 0
         let suf := sigHashSuffix st (UInt8.ofNat pk) (UInt8.ofNat hid) ct iss
         let tag := (H (sigHashInput st msg suf)).take 2
-        s!"suffix={toHex suf} tag={toHex tag} body={toHex (suf.take (suf.length - 6) ++ [0, 0] ++ tag)} verify=ok tampered=bad"
+        let arm := if o.nat? "armor" == some 1 then " arm=ok" else ""
+        s!"suffix={toHex suf} tag={toHex tag} body={toHex (suf.take (suf.length - 6) ++ [0, 0] ++ tag)} verify=ok tampered=bad{arm}"
     | _, _, _, _, _, _ => "bad-op"
   | "enc" =>
     -- end-to-end: the model predicts the outcome class and the outer packet structure
@@ -109,6 +128,33 @@ def handle (line : String) : String :=
   -- the property: every modification of a signed or integrity-protected message is rejected
   | "tamper" => "accepted=-"
   | "tamper1" => "accepted=-"
+  -- key material round trips (Serialize / SerializePrivate / NewEntity / SignIdentity → ReadKeyRing): expected to succeed
+  | "keyrt" => if (o.get? "key").isSome && (o.get? "kind").isSome then "rt=ok" else "bad-op"
+  -- elgamal.Encrypt/Decrypt: messages up to len(p) − 11 octets round-trip, longer ones are refused
+  | "elg" =>
+    match o.nat? "plen", o.nat? "n" with
+    | some plen, some n => if n + 11 ≤ plen then "rt=ok" else "err"
+    | _, _ => "bad-op"
+  -- OCFB encrypter/decrypter are inverse for every chunking; a damaged or short prefix gives a nil decrypter
+  | "ocfb" =>
+    match o.nat? "n", o.nat? "seed", o.nat? "cipher" with
+    | some n, some seed, some c =>
+      -- the harness derives key (k bytes), iv (block size) and data from one splitmix64 stream; replay it
+      let ksz := if c == 2 then 24 else if c == 3 then 16 else if c == 7 then 16 else if c == 8 then 24 else 32
+      let bsz := if c == 2 || c == 3 then 8 else 16
+      let r0 := splitmixBytes seed (ksz)
+      let r1 := splitmixBytes r0.2 bsz
+      let r2 := splitmixBytes r1.2 n
+      s!"pt={toHex r2.1} bad=nil short=nil"
+    | _, _, _ => "bad-op"
+  | "ksz" =>
+    match o.nat? "c" with
+    | some c => s!"ksz={if c == 2 then 24 else if c == 3 then 16 else if c == 7 then 16 else if c == 8 then 24 else if c == 9 then 32 else 0}"
+    | none => "bad-op"
+  | "pka" =>
+    match o.nat? "a" with
+    | some a => s!"enc={decide (a == 1 || a == 2 || a == 16)} sign={decide (a == 1 || a == 3 || a == 17 || a == 19)}"
+    | none => "bad-op"
   | "gpg" => "gpg=ok"
   | _ => "bad-op"
 
